@@ -20,7 +20,7 @@ CHECKS = {
    note="only the Gaussian temporal profile exists in the library; closed form assumes it"),
 }
 
-MACHINE_NOTE = "trusts the harness's own reference simulator (numpy/scipy; two independent operator embeddings cross-checked at start-up) and the reconstruction of the joint density matrix from object attributes; states are seeded into blocks by assigning correctly shaped arrays after the layout was built through public calls; worlds <= 3 envelopes + 2 custom states, Fock cut-offs 2-4 before the call"
+MACHINE_NOTE = "trusts the harness's own reference simulator (numpy/scipy; two independent operator embeddings cross-checked at start-up) and the reconstruction of the joint density matrix from object attributes; states are seeded into blocks by assigning correctly shaped arrays after the layout was built through public calls; worlds <= 3 envelopes + 2 custom states, Fock cut-offs 2-4 before the call; after a step that fails another property's oracle the program continues with the ideal result of that call as reference state (DESIGN.md 12)"
 def machine(design, text, technique):
     return dict(category="exploration", design_ref=design, technique=technique, text=text, note=MACHINE_NOTE)
 CHECKS.update({
@@ -62,7 +62,7 @@ CHECKS.update({
 })
 CHECKS["C17"] = dict(category="fault_enumeration", design_ref="DESIGN.md 3/C17",
    technique="property-based fault injection (Hypothesis): generated invalid requests inside generated programs, rejection + before/after snapshot equality",
-   text="Twelve kinds of invalid request injected at generated points of generated programs through every entry point and layout; the call must raise (or return False) and the joint state, validity and bookkeeping predicates must be unchanged; valid continuation follows under its own oracles.",
+   text="Twelve kinds of invalid request injected at generated points of generated programs through every entry point and layout; the call must raise (or return False) and the joint state, validity and bookkeeping predicates must be unchanged; valid continuation follows under its own oracles, and a continuation that fails while the same program without the refused request passes is attributed to the refused request; refused Operation constructions followed by re-use of an earlier Operation object are a generated scenario.",
    note=MACHINE_NOTE)
 
 NOT_YET = {}
